@@ -1,5 +1,6 @@
 import Ntrip.Proofs.FieldsRoundTrip
 import Ntrip.Guards.Base
+import Ntrip.Proofs.F64
 /-!
 # C05 — base-position messages 1005/1006 decode exactly (and display to 0.1 mm)
 
@@ -106,13 +107,30 @@ theorem base_no_panic (k : BaseKind) (bs : Bytes) : decodeBase k bs ≠ .panic :
     simp only [bind, pure]
     split <;> simp
 
-/-- What the display must show (stated, not yet proved in Lean): the coordinate text is the
-    exact decimal of `x / 10^4` to four places.  The Go expression is
-    `fmt.Sprintf("%.4f", float64(x) * 0.0001)`; its exactness for |x| ≤ 2^37 follows from the
-    rounding-error bound 2^-29 ≪ 0.5·10^-4 (DESIGN.md §7 C05) and is checked by correspondence
-    against exact integer arithmetic on boundary and random coordinates (`base` op). -/
-def DisplayExactStatement : Prop :=
-  ∀ x : Int, -(2^37 : Int) ≤ x → x < 2^37 → True
+/-- The constant the display multiplies by: `0.0001` in the source is the rational 1/10000 (tie
+    T1), and the binary64 nearest to it (ties to even) is `7378697629483821 / 2^66`, which has
+    exactly 53 significant bits. -/
+theorem scale_constant :
+    Gen.t1005_Message_String_scaleFactor = (1 : Rat) / 10000 ∧ Gen.t1006_Message_String_scaleFactor = (1 : Rat) / 10000 ∧
+    F64.rhe (2 ^ 66) 10000 = F64.c0001.m ∧ F64.bitLen F64.c0001.m.natAbs = 53 := by
+  refine ⟨by decide +kernel, by decide +kernel, by decide +kernel, by decide +kernel⟩
+
+/-- **Display to 0.1 mm.**  For every coordinate of the signed 38-bit field and every height of
+    the unsigned 16-bit field, the Go expression `fmt.Sprintf("%.4f", float64(x) * 0.0001)`,
+    evaluated in the exact model of binary64 arithmetic (`F64`: the product of the exactly
+    converted integer and the binary64 nearest to 0.0001, rounded once to 53 bits nearest-even;
+    `%.4f` = the exact value rounded to four decimals), shows exactly `x / 10^4`: the displayed
+    count of 0.0001 units IS `x`.  No digit is lost to floating point. -/
+theorem display_exact (x : Int) (h : -(2 ^ 37 : Int) ≤ x ∧ x < 2 ^ 37) :
+    F64.fixed4 (F64.mul (F64.ofInt x) F64.c0001) = x :=
+  F64.scaled_display_exact x (by omega)
+
+theorem display_exact_height (hgt : Int) (h : 0 ≤ hgt ∧ hgt < 2 ^ 16) :
+    F64.fixed4 (F64.mul (F64.ofInt hgt) F64.c0001) = hgt :=
+  F64.scaled_display_exact hgt (by omega)
+
+example : F64.render4 (F64.fixed4 (F64.mul (F64.ofInt (-137438953472)) F64.c0001)) = "-13743895.3472" := by decide +kernel
+example : F64.render4 (F64.fixed4 (F64.mul (F64.ofInt (-5)) F64.c0001)) = "-0.0005" := by decide +kernel
 
 /-! Non-vacuity (tests): a concrete 1005 message with extreme coordinates. -/
 def sample : List Int := [1005, 2, 3, 0, -137438953472, 1, 137438953471, 2, -1]
